@@ -103,6 +103,30 @@ def r17_a(ctx):
                                 tgt = (n, 'a class attribute is written through %s' % norm(b))
             if tgt is not None:
                 writes.append(tgt)
+        # in-place changes through a local alias of a module-level mutable:  x = G ; x += .. / x |= .. / x.append(..)
+        aliases = {}
+        for n in ast.walk(node):
+            if isinstance(n, ast.Assign) and len(n.targets) == 1 and isinstance(n.targets[0], ast.Name):
+                for g in _may_be_global(n.value):
+                    if g in glob and g not in loc:
+                        r = repo.resolve(module, g)
+                        if r and r[0] == 'const' and any(_mutable_init(v) for v in r[1].assigns.get(r[2], [])):
+                            aliases.setdefault(n.targets[0].id, g)
+        if aliases:
+            for n in ast.walk(node):
+                a = None
+                if isinstance(n, ast.AugAssign) and isinstance(n.target, ast.Name) and n.target.id in aliases:
+                    a = n.target.id
+                elif isinstance(n, ast.Call) and isinstance(n.func, ast.Attribute) and n.func.attr in MUTATORS \
+                        and isinstance(n.func.value, ast.Name) and n.func.value.id in aliases:
+                    a = n.func.value.id
+                elif isinstance(n, (ast.Assign, ast.Delete)) and any(
+                        isinstance(t, ast.Subscript) and isinstance(t.value, ast.Name) and t.value.id in aliases for t in n.targets):
+                    a = [t.value.id for t in n.targets if isinstance(t, ast.Subscript) and isinstance(t.value, ast.Name)
+                         and t.value.id in aliases][0]
+                if a is not None:
+                    writes.append((n, 'the local %s may be the module-level mutable %s, which %s changes in place'
+                                   % (a, aliases[a], norm(n)[:50])))
         exempt = deco is not None and _is_within(node, deco.node) and not deco_calls_in_functions
         rr.ob(not writes or exempt, {'function': '%s.%s' % (module.name, qual), 'shared_writes': len(writes),
                                      'import_time_registrar': bool(writes) and exempt})
@@ -126,6 +150,28 @@ def r17_a(ctx):
                                     'the class-level mutable %s.%s is mutated through instances without a per-instance '
                                     'copy: all nodes share it' % (c.name, a), line=c.node.lineno))
     return rr
+
+
+def _may_be_global(e):
+    """names an expression may evaluate to without copying:  G | G if c else H | G or H"""
+    if isinstance(e, ast.Name):
+        return [e.id]
+    if isinstance(e, ast.IfExp):
+        return _may_be_global(e.body) + _may_be_global(e.orelse)
+    if isinstance(e, ast.BoolOp):
+        return [x for v in e.values for x in _may_be_global(v)]
+    return []
+
+
+def _mutable_init(v):
+    if v is None:
+        return False
+    if isinstance(v, (ast.List, ast.Dict, ast.Set, ast.ListComp, ast.SetComp, ast.DictComp)):
+        return True
+    if isinstance(v, ast.Call) and norm(v.func).split('.')[-1] in ('list', 'dict', 'set', 'defaultdict', 'OrderedDict',
+                                                                    'deque', 'Counter', 'bytearray'):
+        return True
+    return False
 
 
 def _is_within(node, root):
@@ -245,6 +291,11 @@ def r17_c(ctx):
                 (any(isinstance(y, ast.Name) and y.id == tvar for y in ast.walk(x.comparators[0])) and 'len(%s)' % tvar in norm(_res(x.left)))
                 or (any(isinstance(y, ast.Name) and y.id == tvar for y in ast.walk(x.left)) and 'len(%s)' % tvar in norm(_res(x.comparators[0]))))
             for s in owner.body for x in ast.walk(s))
+        if tvar is not None and not prefix_match:
+            # <look-ahead>.startswith(element): a prefix comparison as well
+            prefix_match = any(isinstance(x, ast.Call) and isinstance(x.func, ast.Attribute) and x.func.attr == 'startswith'
+                               and len(x.args) == 1 and isinstance(x.args[0], ast.Name) and x.args[0].id == tvar
+                               for s in owner.body for x in ast.walk(s))
         rel = _prefix_related(v) if prefix_match else None
         ok = prefix_match and not rel
         rr.ob(ok, {'module': m.name, 'function': fdname, 'iteration': norm(it)[:60], 'use': 'first match',
@@ -375,3 +426,51 @@ def _value_names(e):
             out += _value_names(v.value if isinstance(v, ast.Starred) else v)
         return out
     return []
+
+
+def _immutable_result(e):
+    if e is None or isinstance(e, (ast.Constant, ast.JoinedStr, ast.Compare)):
+        return True
+    if isinstance(e, ast.Tuple):
+        return all(_immutable_result(x) for x in e.elts)
+    if isinstance(e, ast.BoolOp):
+        return all(_immutable_result(x) for x in e.values)
+    if isinstance(e, ast.UnaryOp):
+        return _immutable_result(e.operand)
+    if isinstance(e, ast.IfExp):
+        return _immutable_result(e.body) and _immutable_result(e.orelse)
+    if isinstance(e, ast.BinOp) and isinstance(e.op, ast.Mod) and isinstance(e.left, ast.Constant) and isinstance(e.left.value, str):
+        return True
+    if isinstance(e, ast.Call) and isinstance(e.func, ast.Name) and e.func.id in (
+            'str', 'int', 'len', 'bool', 'float', 'repr', 'frozenset', 'isinstance', 'hash', 'ord', 'chr'):
+        return True
+    if isinstance(e, ast.Call) and isinstance(e.func, ast.Attribute) and isinstance(e.func.value, ast.Constant) \
+            and isinstance(e.func.value.value, str):
+        return True         # 'sep'.join(..), '..'.format(..)
+    return False
+
+
+MEMO_WORDS = ('lru_cache', 'cache', 'memo')
+
+
+def r17_g(ctx):
+    """no memoised function hands out mutable objects"""
+    repo = ctx.repo
+    rr = RuleResult('R17.g', 'no function whose results are cached by a memoising decorator (functools.lru_cache / cache '
+                    '/ a memoize helper) returns anything but an immutable value: a cached node, group, token or list '
+                    'would be shared by every caller, across commands and across parses', floor=40)
+    for fd in repo.all_funcs():
+        memo = [d for d in fd.decorators if any(w in d.split('(')[0].split('.')[-1].lower() for w in MEMO_WORDS)
+                and 'cached_property' not in d]
+        rets = [n for n in ast.walk(fd.node) if isinstance(n, ast.Return)]
+        gen = any(isinstance(n, (ast.Yield, ast.YieldFrom)) for n in ast.walk(fd.node))
+        mutable = [r for r in rets if not _immutable_result(r.value)]
+        ok = not memo or (not mutable and not gen)
+        rr.ob(ok, {'function': fd.fq, 'memoising_decorators': memo})
+        if not ok:
+            what = norm(mutable[0].value)[:50] if mutable else 'a generator'
+            rr.fail(Finding('R17.g', fd.module.name, fd.qual, 'decorator %s on %s' % (memo[0], fd.qual),
+                            '%s is memoised by %s and returns %s: equal arguments yield the very same object, so nodes '
+                            'built from it share mutable state -- an edit of one changes the others, and a later parse '
+                            'sees the edits of an earlier one' % (fd.qual, memo[0], what), line=fd.node.lineno))
+    return rr
